@@ -908,3 +908,57 @@ fn c05_delete_releases_clusters() {
     assert!(g[2] == 0x0FFF_FFFF && g[4] == 0x0FFF_FFFF, "fat.frame: delete changed another file's FAT entries");
     kani::cover!(r.is_ok());
 }
+
+// ------------------------------------------------- read with a device fault ---
+/// read() across a cluster boundary (chain 3 -> 5 -> 2, offset 510, 4 bytes;
+/// device calls: data block of cluster 3, FAT sector, data block of cluster 5)
+/// with device call `n` failing and scribbling its buffer: the call reports the
+/// device error; after seeking back, the same read without a fault returns the
+/// file's bytes (nothing stale or scribbled is served from the cache).
+fn read_fault_case(n: u32) {
+    let mut blocks = image16(F352);
+    let mut c = 0;
+    while c < 4 {
+        blocks[(G16A_DATA + c) as usize] = any_block();
+        c += 1;
+    }
+    let img = [blocks[G16A_DATA as usize].clone(), blocks[G16A_DATA as usize + 1].clone(), blocks[G16A_DATA as usize + 2].clone(), blocks[G16A_DATA as usize + 3].clone()];
+    let vm = vm_with(blocks, &[file_info(10, 3, 1300, 510, (0, 3), Mode::ReadOnly, 1)]);
+    {
+        let mut data = vm.data.borrow_mut();
+        data.block_cache.block_device().fail_at = Some(n);
+    }
+    let f = RawFile(Handle(10));
+    let mut buf = [0u8; 4];
+    let r = vm.read(f, &mut buf);
+    let fired = {
+        let data = vm.data.borrow();
+        vk_bd::dev(&data.block_cache).failed.get()
+    };
+    if fired {
+        assert!(matches!(r, Err(Error::DeviceError(_))), "fault.reported: read returned something other than the device error although a device read failed");
+    } else {
+        assert!(matches!(r, Ok(4)), "file.read: read without a fault failed");
+    }
+    // the handle is still usable: seek back and read again, now without a fault
+    assert!(vm.file_seek_from_start(f, 510).is_ok(), "fault.wedged: handle unusable after a failed read");
+    let mut buf2 = [0u8; 4];
+    let r2 = vm.read(f, &mut buf2);
+    assert!(matches!(r2, Ok(4)), "fault.retry: retried read failed although the fault was transient");
+    // model: bytes 510,511 in cluster 3 (index 1), bytes 512,513 in cluster 5 (index 3)
+    assert!(buf2[0] == img[1].contents[510] && buf2[1] == img[1].contents[511] && buf2[2] == img[3].contents[0] && buf2[3] == img[3].contents[1], "fault.retry: retried read returned bytes that are not the file's (scribbled or stale cache contents)");
+    assert!(vm.file_offset(f).ok() == Some(514), "fault.retry: offset after the retried read");
+    kani::cover!(fired);
+}
+macro_rules! read_fault_h {
+    ($name:ident, $n:expr) => {
+        #[kani::proof]
+        #[kani::unwind(12)]
+        fn $name() {
+            read_fault_case($n);
+        }
+    };
+}
+read_fault_h!(c11_read_fault_first_block, 0);
+read_fault_h!(c11_read_fault_fat, 1);
+read_fault_h!(c11_read_fault_second_block, 2);
